@@ -1,40 +1,60 @@
 import RoaringModel.Lemmas.RoundTrip
 import RoaringModel.Lemmas.EncodeSpec
 import RoaringModel.Lemmas.DecodeWF
+import RoaringModel.Lemmas.CodecKernel
+import RoaringModel.Lemmas.DecodeSpec
+import RoaringModel.Lemmas.Canonical
 /-!
 # C06 — every conformant Roaring stream decodes to exactly its set (32-bit half)
 
-Full statement (`C06_statement`): whenever the strict reference decoder `Spec.decode` accepts a stream with set
-`S`, both decoders of the model return a well-formed value `b` with `elems b = S` and the same unread rest.
+Full statement (`C06_statement`, proved: `C06`): whenever the strict reference decoder `Spec.decode` accepts a
+byte string with set `S`, both decoders of the model, in both build configurations, return a well-formed value
+`b` (`Bitmap.WF`) with `elems b = S` and the same unread rest.  This covers both cookies, streams with and
+without offset header, and array / bitset / run chunks in any position.
 
-Proved here: the instance for the *standard* encodings — every stream the reference encoder produces for the
-element list of a well-formed value, followed by arbitrary bytes — for both decoders and both build
-configurations.  Not yet proved: streams with run chunks, the offset-less header, and bitset/array chunks that
-are not in canonical position; these are covered by the correspondence check against an independent conformant
-encoder and by the driver's run-time `!SPEC` cross-check (`elems (decode s) = Spec.decode s`) on every
-generated stream and both golden files.
+The hypothesis `∀ x ∈ bs, x < 256` only says that the `List Nat` is a byte string (the model represents bytes as
+`Nat`s; for lists with entries `≥ 256` the little-endian readers of *both* sides produce values outside `u16`,
+e.g. a chunk key `65536`, which no `Vec<u8>` can express).
 -/
 namespace Roaring.C06
 open Roaring
 
 def C06_statement : Prop :=
-  ∀ (chk dbg : Bool) (bs S rest : List Nat), Spec.decode bs = some (S, rest) →
-    ∃ b, deserialize chk dbg bs = .ok (b, rest) ∧ BitmapWF b ∧ Bitmap.elems b = S
+  ∀ (chk dbg : Bool) (bs S rest : List Nat), (∀ x ∈ bs, x < 256) → Spec.decode bs = some (S, rest) →
+    ∃ b, deserialize chk dbg bs = .ok (b, rest) ∧ Bitmap.WF b ∧ Bitmap.elems b = S
+
+/-- **C06.**  Every stream accepted by the strict reference decoder is decoded — by `deserialize_from` and by
+    `deserialize_unchecked_from`, with and without debug assertions — to a well-formed value holding exactly the
+    set the format specification assigns to the stream, leaving the same unread rest.  No hypothesis. -/
+theorem C06 : C06_statement := fun chk dbg bs S rest hb h => decode_spec chk dbg bs S rest hb h
+
+/-- the accepted value is *the* representation of `S`: any well-formed value with the same elements (for example
+    the one built natively by inserting the elements of `S`) is structurally equal to it, hence `==` -/
+theorem C06_unique (chk dbg : Bool) (bs S rest : List Nat) (hb : ∀ x ∈ bs, x < 256)
+    (h : Spec.decode bs = some (S, rest)) (b' : Bitmap) (hw : Bitmap.WF b') (he : Bitmap.elems b' = S) :
+    deserialize chk dbg bs = .ok (b', rest) := by
+  obtain ⟨b, hd, hwf, hel⟩ := C06 chk dbg bs S rest hb h
+  rw [hd, Bitmap.canonical b b' hwf hw (by rw [hel, he])]
+
+/-- all four decoder configurations agree on conformant streams -/
+theorem C06_agree (chk dbg chk' dbg' : Bool) (bs S rest : List Nat) (hb : ∀ x ∈ bs, x < 256)
+    (h : Spec.decode bs = some (S, rest)) : deserialize chk dbg bs = deserialize chk' dbg' bs := by
+  obtain ⟨b, hd, hwf, hel⟩ := C06 chk dbg bs S rest hb h
+  rw [hd, C06_unique chk' dbg' bs S rest hb h b hwf hel]
 
 /-- The decoders invert the reference encoder: the standard encoding of the elements of any well-formed value,
     followed by anything, decodes to exactly that value (so to exactly that set, `==` the natively built one),
-    leaving what followed.  Hypothesis: the bitset bridge `Kernel.bitmap_toArray` (see C05). -/
-theorem C06_standard_partial (hK : Kernel.bitmap_toArray) (chk dbg : Bool) (b : Bitmap) (h : BitmapWF b)
-    (rest : List Nat) :
+    leaving what followed. -/
+theorem C06_standard (chk dbg : Bool) (b : Bitmap) (h : Bitmap.WF b) (rest : List Nat) :
     deserialize chk dbg (Spec.encode (Bitmap.elems b) ++ rest) = .ok (b, rest) := by
-  rw [← serialize_eq_encode hK b h]
-  exact deserialize_serialize chk dbg b h rest
+  rw [← serialize_eq_encode bitmap_toArray b h.toCodec]
+  exact deserialize_serialize chk dbg b h.toCodec rest
 
-/-- Whatever the checked decoder returns for a stream is a well-formed value, so by canonical form it is the
-    only representation of its element set (modulo the run-chunk kernel fact, see C13). -/
-theorem C06_checked_wf_partial (hK : Kernel.runStore_wf) (dbg : Bool) (bs rest : List Nat) (b : Bitmap)
-    (hb : ∀ x ∈ bs, x < 256) (h : deserialize true dbg bs = .ok (b, rest)) : BitmapWF b :=
-  (post_deserialize hK dbg bs b rest hb h).1
+/-- Whatever the checked decoder returns for a byte string is a well-formed value, so by canonical form it is
+    the only representation of its element set (see C13). -/
+theorem C06_checked_wf (dbg : Bool) (bs rest : List Nat) (b : Bitmap)
+    (hb : ∀ x ∈ bs, x < 256) (h : deserialize true dbg bs = .ok (b, rest)) : Bitmap.WF b :=
+  (post_deserialize runStore_wf dbg bs b rest hb h).1.toWF
 
 /-- concrete instances (no hypothesis), checked by evaluation in the kernel: a run-cookie stream without offset
     header holding one run chunk `[(2,2),(9,0)]` under key 3, accepted by the strict reference decoder with set
@@ -43,5 +63,10 @@ example : Spec.decode [59, 48, 0, 0, 1, 3, 0, 3, 0, 2, 0, 2, 0, 2, 0, 9, 0, 0, 0
     some ([196610, 196611, 196612, 196617], []) := by rfl
 example : (deserialize true true [59, 48, 0, 0, 1, 3, 0, 3, 0, 2, 0, 2, 0, 2, 0, 9, 0, 0, 0]).map
     (fun r => (Bitmap.elems r.1, r.2)) = .ok ([196610, 196611, 196612, 196617], []) := by rfl
+
+/-- why the byte-string hypothesis is there: with a "byte" `256` the reference decoder reads the chunk key
+    `65536` and accepts; no `u16` key can hold it (not a statement about the crate: a `Vec<u8>` has no such
+    entry) -/
+example : Spec.decode [58, 48, 0, 0, 1, 0, 0, 0, 0, 256, 0, 0, 16, 0, 0, 0, 5, 0] = some ([4294967301], []) := by rfl
 
 end Roaring.C06
